@@ -179,18 +179,25 @@ def build_world(case, env, layout="tree", parent_behind=False):
     # the revision of the pending merge: one of the history that the tip has
     # not merged, or an extra one that nothing but the tree will refer to
     extra = None
-    if case["pending_merge"] and not case.get("clean") and layout != "branch":
+    want_merge = case["pending_merge"] and not case.get("clean") and \
+        layout != "branch"
+    tagged_side = None
+
+    def side_revision(rev_id):
+        revno, tipid = wt.branch.last_revision_info()
+        wt.commit("side", rev_id=bz.enc(rev_id), timestamp=bz.T0 + 77777,
+                  timezone=0, committer=bz.COMMITTER, allow_pointless=True)
+        wt.branch.set_last_revision_info(revno, tipid)
+        wt.set_parent_ids([tipid])
+        return rev_id
+    if want_merge:
         anc = gm.ancestry(g, tip)
         others = [r["id"] for r in spec["revs"] if r["id"] not in anc]
-        if others:
-            extra = others[0]
-        else:
-            revno, tipid = wt.branch.last_revision_info()
-            wt.commit("side", rev_id=b"extra-rev", timestamp=bz.T0 + 77777,
-                      timezone=0, committer=bz.COMMITTER, allow_pointless=True)
-            wt.branch.set_last_revision_info(revno, tipid)
-            wt.set_parent_ids([tipid])
-            extra = "extra-rev"
+        extra = others[0] if others else side_revision("extra-rev")
+    if case.get("side_tag"):
+        # (a revision of its own: the tree's pending merge is carried along
+        # by other code than what only a tag names)
+        tagged_side = side_revision("tagged-side-rev")
     # a parent branch (gives checkout / stacking something to refer to); the
     # tags are set afterwards, so the parent does not have them already
     lh = gm.lefthand(g, tip)
@@ -205,6 +212,10 @@ def build_world(case, env, layout="tree", parent_behind=False):
     if wt.branch.supports_tags():
         for t, r in (spec.get("tags") or {}).items():
             wt.branch.tags.set_tag(t, idmap[r])
+        if case.get("side_tag"):
+            # a tag on a revision that the tip has not merged: nothing but
+            # the tag (and perhaps the tree) refers to it
+            wt.branch.tags.set_tag("tside", bz.enc(tagged_side))
     w.tree_path = path
     if layout == "branch":
         wt.branch.controldir.destroy_workingtree()
@@ -536,7 +547,8 @@ def _base(draw):
     return {"source": src, "spec": spec, "pending": pending,
             "pending_merge": draw(st.sampled_from([False, True])),
             "conflicts": draw(st.sampled_from([False, True])),
-            "shared": draw(st.sampled_from([False, True]))}
+            "shared": draw(st.sampled_from([False, True])),
+            "side_tag": draw(st.sampled_from([False, True]))}
 
 
 @st.composite
